@@ -837,7 +837,7 @@ def worker_main():
 # X3: the real _clean_up_state against V2/Cleanup.v on abstracted real states
 
 PREAMBLE_CL = """From Coq Require Import ZArith List String.
-From NG Require Import V2.Cleanup V2.Cleanup_now V2.CleanupRun.
+From NG Require Import V2.Cleanup V2.CleanupRun.
 Import ListNotations.
 Open Scope string_scope.
 Open Scope Z_scope.
@@ -909,14 +909,26 @@ def _x3_cases(src, events, rng_seed, limit):
             # number the actions on the copy (same objects before and after the clean-up)
             before = _abstract_state(st2, base, actnum)
             n_before = len(st2.flow_states)
+            snapshot = {u: (f.status.name, int(f.activated), f.status_updated) for u, f in st2.flow_states.items()}
+            refd = None
             try:
                 sm._clean_up_state(st2)
                 after = "(Some " + _abstract_state(st2, base, actnum) + ")"
             except Exception:
                 after = "None"
+            # direct oracle (independent restatement of the property text): only long-finished,
+            # non-activated instances may be discarded
+            wrong = []
+            tnow = sm.datetime.now()
+            for u, (stn, actv, upd) in snapshot.items():
+                if u not in st2.flow_states:
+                    age_s = (tnow - upd).total_seconds()
+                    if stn not in ("FINISHED", "STOPPED") or actv != 0 or not age_s > 5.0:
+                        wrong.append({"uid": u, "status": stn, "activated": actv, "age_s": age_s})
             _Clock.offset = saved
             cases.append({"term": f"({C.coq_Z(now_us)}, {before}, {after})", "removed": n_before - len(st2.flow_states),
-                          "flows": n_before})
+                          "flows": n_before, "wrong": wrong[:3], "src": src if wrong else None,
+                          "events": list(events) if wrong else None, "clock_s": saved + delta})
     return cases
 
 
@@ -1192,6 +1204,15 @@ def run(tier, seed, replay=None):
             out.add_broken("correspondence:C11-cleanup(worker)", str(errs[:2]))
         x3_n = len(x3cases)
         x3_removed = sum(1 for c in x3cases if c["removed"] > 0)
+        for c in x3cases:
+            if c.get("wrong"):
+                w = c["wrong"][0]
+                sig = ("cleanup-removes-activated-instance" if w["activated"] != 0 else
+                       "cleanup-removes-unfinished-instance" if w["status"] not in ("FINISHED", "STOPPED") else
+                       "cleanup-removes-recently-finished-instance")
+                out.findings.append(C.Finding(sig, f"_clean_up_state discarded instance {w['uid']} (status {w['status']}, activated {w['activated']}, finished {w['age_s']:.6f} s ago)",
+                                              {"kind": "x3", "src": c["src"], "events": c["events"], "clock_s": c["clock_s"], "removed": c["wrong"],
+                                               "required": "only FINISHED/STOPPED, non-activated instances older than 5 s are discarded"}))
         if okm and x3cases:
             bools, err = C.run_cases(PID + "_x3", PREAMBLE_CL, [c["term"] for c in x3cases], "check_cleanup", shard=40)
             if err:
